@@ -132,6 +132,26 @@ PartitionClauses(e) ==
                        V("C10", l, "Partition: a unit is treated by two cell-based families"))
            : c \in Range(e.cells)}
 
+(* C09, last sentence: no factor involving a moving unit is missing or duplicated -- on the *pending* candidates of the
+   cell-based families of one cell system (the far part of a cell-veto family is the occupancy of the non-nearby cells) *)
+CoverClauses(e, run, ids) ==
+    UNION {LET sysm == Meta.cellsys[c.sys]
+               rel  == Range(sysm.relevant)
+               tagsOf(kind) == {t \in Tags : KindOfTag(t) = kind /\ Meta.taggers[t].sys = c.sys /\ e.activated[t] = 1}
+               pend2(t) == {ids[h][2] : h \in RunningOf(t, run)}
+               pendRest(t) == UNION {{ids[h][k] : k \in 2 .. Len(ids[h])} : h \in RunningOf(t, run)}
+               exT == tagsOf("excluded_cells")   suT == tagsOf("surplus_cells")
+               cbT == tagsOf("cell_bounding")    cvT == tagsOf("cell_veto")
+               near == IF exT = {} THEN {} ELSE pend2(CHOOSE t \in exT : TRUE)
+               sur  == IF suT = {} THEN {} ELSE pend2(CHOOSE t \in suT : TRUE)
+               far  == IF cbT # {} THEN pendRest(CHOOSE t \in cbT : TRUE)
+                       ELSE UNION {Range(x[2]) : x \in {y \in Range(c.occ) : ~NearbyCell(sysm, c.activeCell, y[1])}}
+               complete == exT # {} /\ suT # {} /\ (cbT # {} \/ cvT # {})
+           IN  IF c.activeUid = 0 \/ ~complete THEN {} ELSE
+               If((near \cup sur \cup far) # rel \ {c.activeUid} \/ near \cap sur # {} \/ near \cap far # {} \/ sur \cap far # {},
+                  V("C09", l, "CoveredOnce: a factor between the moving unit and another relevant unit is missing from or duplicated in the pending events"))
+           : c \in Range(e.cells)}
+
 RunStep(e) ==
     LET ret == e.ret
         hs  == {r[1] : r \in Range(ret)}
@@ -147,7 +167,7 @@ RunStep(e) ==
                       : t \in Tags}
         free == If(\E h \in hs : running[h], V("C09", l, "ReturnedWereFree: activator returned a handler that is already running"))
     IN  /\ running' = run1 /\ runids' = ids1
-        /\ viol' = viol \cup c09 \cup free \cup CellClauses(e) \cup (IF e.prev = 0 THEN {} ELSE PartitionClauses(e)) \cup DescClauses(e)
+        /\ viol' = viol \cup c09 \cup (IF e.prev = 0 THEN {} ELSE CoverClauses(e, run1, ids1)) \cup free \cup CellClauses(e) \cup (IF e.prev = 0 THEN {} ELSE PartitionClauses(e)) \cup DescClauses(e)
         /\ UNCHANGED <<g, ver, pend, sched, lastT, cur, commitT, started, nsamp, ncand>>
 
 (* ======================================================================== time (Candidate) *)
@@ -166,6 +186,7 @@ CellVetoClauses(e) ==
         \cup If((cv.signpos = 1 /\ cv.walker # "upper") \/ (cv.signpos = 0 /\ cv.walker # "lower"),
                 V("C18", l, "CellVetoWalkerSign: wrong walker for the sign of the charge factor"))
         \cup If(cv.positive # 1, V("C18", l, "CellVetoBound: proposed from a cell with non-positive bound"))
+        \cup If(Has(cv, "propres") /\ cv.propres > 1, V("C18", l, "CellVetoRate: events are not proposed at total rate * speed (beyond one rounding of the time addition)"))
 
 TimeStep(e) ==
     LET h == e.hid
@@ -302,6 +323,7 @@ WriteStep(e) ==
                \cup If(Len(e.state) # N, V("C17", l, "SampleAfterCommit: state handed to the output handler is incomplete"))
                \cup If(\E s \in Range(e.state) : s[3] # 0 /\ ~TKEq(s[4], t), V("C17", l, "AllSliced: a moving unit was not advanced to the sampling / end time"))
                \cup If(h # cur, V("C17", l, "output written for a handler that was not the committed one"))
+               \cup If(Has(e, "j") /\ e.j > 0 /\ e.wres > e.j, V("C17", l, "SampleTimes: the j-th written sample is not at j * interval (one rounding per step)"))
     IN  /\ nsamp' = IF isState /\ h \in Handlers THEN [nsamp EXCEPT ![h] = @ + 1] ELSE nsamp
         /\ viol' = viol \cup c17 \cup DescClauses(e)
         /\ UNCHANGED <<g, ver, pend, running, runids, sched, lastT, cur, commitT, started, ncand>>
